@@ -132,6 +132,16 @@ func (e *bufEnd) Close() error {
 	return nil
 }
 
+// CloseWrite ends this end's sending direction (a TCP half-close): the peer reads EOF once it has drained
+// what was written, while this end can still read.
+func (e *bufEnd) CloseWrite() error {
+	e.w.mu.Lock()
+	e.w.wclosed = true
+	e.w.cond.Broadcast()
+	e.w.mu.Unlock()
+	return nil
+}
+
 func (e *bufEnd) wakeAt(t time.Time, h *half) {
 	if t.IsZero() {
 		return
